@@ -157,12 +157,13 @@ bool Exec::apply(const Op& o) {
     }
     case O_ADD_REF_ARR: case O_ADD_REF_OBJ: {
         MN* p = node(o.a); MN* t = node(o.b); if (!p || !t) return false;
-        cJSON_bool ok = o.code == O_ADD_REF_ARR ? LIB(cJSON_AddItemReferenceToArray(p->real, t->real)) : LIB(cJSON_AddItemReferenceToObject(p->real, lits->key[o.c], t->real));
+        if (o.code == O_ADD_REF_OBJ && o.d == 1 && !t->haskey) return false;   // d == 1: the key argument is the referenced item's own name (aliases memory of the item)
+        cJSON_bool ok = o.code == O_ADD_REF_ARR ? LIB(cJSON_AddItemReferenceToArray(p->real, t->real)) : LIB(cJSON_AddItemReferenceToObject(p->real, o.d == 1 ? t->real->string : lits->key[o.c], t->real));
         expect(ok, "model:add-reference-refused", "AddItemReferenceTo* returned false");
         if (!ok) return true;
         cJSON* last = p->real->child ? p->real->child->prev : nullptr;
         MN* r = w.mk(); r->kind = t->kind; r->ref = true; r->btarget = t->ref ? t->btarget : t; r->chainref = t->ref && t->chainref; r->litref = t->ref && t->litref; /* a reference to a reference node is a second, independent reference node to the same target */ r->num = t->num; r->vint = t->vint; r->str = t->str; r->real = last; r->parent = p;
-        if (o.code == O_ADD_REF_OBJ) { r->haskey = true; r->key = KEYS[o.c]; }
+        if (o.code == O_ADD_REF_OBJ) { r->haskey = true; r->key = o.d == 1 ? t->key : KEYS[o.c]; }
         p->kids.push_back(r); return true;
     }
     case O_HELPER: {
@@ -299,12 +300,15 @@ bool Exec::apply(const Op& o) {
     case O_SORT: {
         MN* p = node(o.a); if (!p || !is_container(p)) return false;
         std::vector<const cJSON*> before; for (MN* k : p->kids) before.push_back(k->real);
+        if (o.c == 1) ledger_arm_fault(1, false);   // c == 1: whatever the sort might want to allocate is refused (it may then leave the order alone, but not the links)
         if (o.b) LIBV(cJSONUtils_SortObjectCaseSensitive(p->real)); else LIBV(cJSONUtils_SortObject(p->real));
+        bool refused = o.c == 1 && ledger_fault_fired(); if (o.c == 1) ledger_arm_fault(0, false);
         std::vector<cJSON*> now; size_t guard = 0; for (cJSON* c = p->real->child; c && guard < 64; c = c->next, guard++) now.push_back(c);
         std::vector<const cJSON*> a(before), b(now.begin(), now.end()); std::sort(a.begin(), a.end()); std::sort(b.begin(), b.end());
         if (a != b) { fail("sort:not-a-permutation", "after sorting the object holds a different set of member nodes (" + std::to_string(now.size()) + " reachable, " + std::to_string(before.size()) + " before)"); return true; }
         std::vector<MN*> nk; for (cJSON* c : now) for (MN* k : p->kids) if (k->real == c) nk.push_back(k);
         p->kids = nk;
+        if (refused) return true;
         for (size_t i = 0; i + 1 < nk.size(); i++) {
             std::string x = o.b ? nk[i]->key : fold(nk[i]->key), y = o.b ? nk[i + 1]->key : fold(nk[i + 1]->key);
             if (x.compare(y) > 0) { fail("sort:not-sorted", "keys not in non-decreasing order after sort: \"" + nk[i]->key + "\" before \"" + nk[i + 1]->key + "\""); return true; }
